@@ -5,7 +5,9 @@
 (* The fixed schema of this module (rendered by the harness):                   *)
 (*   lib   := item+                                                             *)
 (*   item  := @id:int (required) @flag:boolean?  title:string, qty:int,         *)
-(*            note:string?, sub?, any{0,2} of another namespace, STRICT         *)
+(*            note:string?, sub?, memo? (mixed content, FIXED value "draft";    *)
+(*            present in the items that carry a flag), any{0,2} of another      *)
+(*            namespace, STRICT                                                 *)
 (*            (x:known has a global declaration, x:unk has none; an item that   *)
 (*            has a note also carries one x:known)                              *)
 (*   sub   := qty:decimal+            (same local name, other declaration)      *)
@@ -22,7 +24,7 @@ EXTENDS XsdBase, TLC, Json
 ItemCfg == [flag : BOOLEAN, note : BOOLEAN, sub : 0..2]
 ItemDevs == {"none", "badqty", "missingtitle", "missingqty", "extrachild", "extrafirst", "swap",
              "badid", "missingid", "bogusattr", "bogusontitle", "badflag",
-             "badsubqty", "emptysub", "extrainsub", "textinitem", "unknownext"}
+             "badsubqty", "emptysub", "extrainsub", "textinitem", "unknownext", "badmemo"}
 RootDevs == {"none", "extrainroot", "extrafirstinroot", "noitems", "bogusonroot"}
 
 Node(p, name, decl, attrs, text) == [path |-> p, name |-> name, decl |-> decl, attrs |-> attrs, text |-> text]
@@ -34,6 +36,7 @@ ItemKids(c, d) ==
       N == IF c.note THEN <<<<"note", "note", "ok">>>> ELSE <<>>
       S == IF c.sub > 0 THEN <<<<"sub", "sub", "-">>>> ELSE <<>>
       Z == <<"zzz", "none", "-">>
+      M == IF c.flag THEN <<<<"memo", "memo", IF d = "badmemo" THEN "bad" ELSE "ok">>>> ELSE <<>>
       E == IF c.note THEN <<<<"ext", "wild", "-">>>> ELSE <<>>        \* admitted by the strict wildcard
       U == IF d = "unknownext" THEN <<<<"unk", "none", "-">>>> ELSE <<>>   \* no declaration to be strict with
       base == CASE d = "missingtitle" -> <<Q>>
@@ -41,7 +44,7 @@ ItemKids(c, d) ==
                 [] d = "swap"         -> <<Q, T>>
                 [] d = "extrafirst"   -> <<Z, T, Q>>
                 [] OTHER              -> <<T, Q>>
-  IN base \o N \o S \o E \o U \o (IF d = "extrachild" THEN <<Z>> ELSE <<>>)
+  IN base \o N \o S \o M \o E \o U \o (IF d = "extrachild" THEN <<Z>> ELSE <<>>)
 
 SubKids(c, d) ==
   LET n == IF d = "emptysub" THEN 0 ELSE c.sub
@@ -71,6 +74,7 @@ ItemNodes(p, c, d) ==
 
 (* applicability: a deviation needs the thing it damages *)
 Applicable(c, d) == CASE d \in {"badsubqty", "emptysub", "extrainsub"} -> c.sub > 0
+                      [] d = "badmemo" -> c.flag
                       [] d = "badflag" -> TRUE
                       [] OTHER -> TRUE
 
@@ -81,6 +85,7 @@ ItemTarget(p, c, d) ==
   CASE d = "badqty"       -> Append(p, Index(ks, "qty"))
     [] d \in {"extrachild", "extrafirst"} -> Append(p, Index(ks, "zzz"))
     [] d = "unknownext"   -> Append(p, Index(ks, "unk"))
+    [] d = "badmemo"      -> Append(p, Index(ks, "memo"))
     [] d = "swap"         -> Append(p, Index(ks, "title"))
     [] d = "bogusontitle" -> Append(p, Index(ks, "title"))
     [] d = "badsubqty"    -> Append(Append(p, Index(ks, "sub")), 1)
